@@ -16,9 +16,18 @@ PROPS = {
             "sections": [("pyvc", {}), ("atnk", {"groups": ["identity"]}), ("lean", {"files": ["Walk.lean"]}), ("witness", W)]},
     "C03": {"title": "expressions evaluate to their arithmetic value", "level": "proof",
             "sections": [("pyvc", {}), ("atnk", {"groups": ["precedence", "literals"]}), ("witness", W)]},
-    "C04": {"title": "instantiating a template equals substitution", "level": "proof",
+    "C04": {"title": "instantiating a template equals substitution", "level": "other",
+            "explanation": "contracts on __call__/_bind_parameters/exitProgram/parameters/is_template and on the load side are discharged (PyVC, z3) and the frame/"
+                           "aliasing clauses of __call__ are decided; but the spec of exitArrayvar (parameter positions inside arrays) mirrors the code's "
+                           "flatten / re-insert / reshape algorithm -- that this algorithm yields the written layout is the Lean lemma reinsert_split plus assumed "
+                           "NumPy contracts, and SUBST(EVAL_sym(e)) = EVAL(e[subst]) rests on A-sympy; the end-to-end equality with the substituted text is a "
+                           "bounded stand-in (witness families template_subst, template_subst_x)",
             "sections": [("pyvc", {}), ("frames", {}), ("lean", {"files": ["Fold.lean"]}), ("witness", W)]},
-    "C05": {"title": "declared types, array layout and shape", "level": "proof",
+    "C05": {"title": "declared types, array layout and shape", "level": "other",
+            "explanation": "contracts on exitExpressionvar / exitArrayvar / the ArrayIdx branch of _expression are discharged (PyVC, z3): casts, ragged-row and shape "
+                           "rejection, row-major index; the spec of exitArrayvar mirrors the code's flatten / re-insert / reshape(rows, -1) algorithm, and that it "
+                           "produces element (r, c) = c-th entry of the r-th row is carried by the Lean lemmas flatten_get_rowmajor / reinsert_split under the "
+                           "assumed NumPy contracts (A-numpy-array); layout end-to-end is a bounded stand-in (witness families decl_types, decl_types_x)",
             "sections": [("pyvc", {}), ("lean", {"files": ["Fold.lean"]}), ("witness", W)]},
     "C06": {"title": "a for-loop equals its unrolling", "level": "proof",
             "sections": [("pyvc", {}), ("lean", {"files": ["Walk.lean"]}), ("witness", W)]},
@@ -42,7 +51,10 @@ PROPS = {
             "explanation": "closed obligations over the shipped artefacts (serialized ATNs, .interp, .tokens, g4): carrier identity, tagged-DFA equivalence of the lexer, "
                            "rule-wise regular equivalence of the parser ATN with the g4 right-hand sides, generated-code/ATN correspondence; each is decided completely "
                            "by evaluation (representation invariant against an abstract view; translation validation of ANTLR's output for this grammar, not of ANTLR)"},
-    "C15": {"title": "TDM programs pass p-arrays by name and keep their data", "level": "proof",
+    "C15": {"title": "TDM programs pass p-arrays by name and keep their data", "level": "other",
+            "explanation": "contracts on the p-registration branch of exitArrayvar, the VariableLabel branch of _expression, exitProgram, is_ptype/_is_ptype, "
+                           "_value_to_blackbird and serialize are discharged (PyVC, z3); the tdm declaration block of serialize is specified by a spec that mirrors the "
+                           "code, and the re-load of the emitted declarations by the shipped parser is a bounded stand-in (witness families tdm, tdm_x, roundtrip_x)",
             "sections": [("pyvc", {}), ("witness", W)]},
     "C16": {"title": "the dependency graph is an order-respecting DAG", "level": "proof",
             "sections": [("pyvc", {}), ("lean", {"files": ["Graph.lean"]}), ("witness", W)]},
